@@ -315,7 +315,7 @@ def mon_sig(sc, r):
 # ------------------------------------------------------------------------------------------------ stop (C12)
 
 STOP_MS = 700
-PHASES = ["run", "timeout", "grace", "delay", "stop-shutdown-cont", "info", "grace-shutdown", "grace-stop-second-shutdown"]
+PHASES = ["run", "timeout", "grace", "delay", "stop-shutdown-cont", "info", "grace-shutdown", "grace-stop-second-shutdown", "grace-twice"]
 RETRY_OVERRIDE = """
 [[profile.default.overrides]]
 filter = 'test(/^delay_/)'
@@ -336,7 +336,8 @@ def gen_stop(seed, k):
         sc.test("t_one", "work_0", ["ignore:18", "work:900", "exit:0"]); tests.append(t)
         t2 = {"bin": "t_two", "pkg": "alpha", "name": "fast_1", "kind": "fast", "run_ms": 30}
         sc.test("t_two", "fast_1", ["work:30", "exit:0"]); tests.append(t2)
-        d = rng.choice([150, 300, 500])
+        # (corpus: stopped 300 ms into the first 400 ms period — a resumed period that forgot its length would end the test early)
+        d = 300 if k < len(PHASES) else rng.choice([150, 300, 500])
         sigs = [(trig_started(t), 1, d, signal.SIGTSTP), (trig_started(t), 1, d + STOP_MS, signal.SIGCONT)]
     elif phase == "timeout":
         P, K, G = 300, 2, rng.choice([0, 300])
@@ -350,6 +351,13 @@ def gen_stop(seed, k):
         sc.test("t_one", "ign_0", ["ignore:18", "ignore:15", "hang"]); tests.append(t)
         d = rng.choice([200, 400])
         sigs = [("TestSlow .*will_terminate=true", 1, d, signal.SIGTSTP), ("TestSlow .*will_terminate=true", 1, d + STOP_MS, signal.SIGCONT)]
+    elif phase == "grace-twice":
+        # two stop/continue cycles inside one termination grace period: every timer of the terminate loop must have been resumed by the first
+        P, K, G = 300, 1, 2000
+        t = {"bin": "t_one", "pkg": "alpha", "name": "ign_0", "kind": "hang_ign", "deadline": P * K}
+        sc.test("t_one", "ign_0", ["ignore:18", "ignore:15", "hang"]); tests.append(t)
+        tr = "TestSlow .*will_terminate=true"
+        sigs = [(tr, 1, 200, signal.SIGTSTP), (tr, 1, 600, signal.SIGCONT), (tr, 1, 1000, signal.SIGTSTP), (tr, 1, 1400, signal.SIGCONT)]
     elif phase == "delay":
         t = {"bin": "t_one", "pkg": "alpha", "name": "delay_0", "kind": "delay", "delay": 1500}
         sc.test("t_one", "delay_0", {"1": ["exit:1"], "2": ["work:40", "exit:0"]}); tests.append(t)
@@ -404,8 +412,12 @@ def mon_stop(sc, r):
         if not st: V("not-stopped", f"[{phase}] nextest never stopped itself after SIGTSTP")
         elif ms(st[0][0] - t_stop) > 100 + SLACK_HI: V("not-stopped", f"[{phase}] nextest stopped itself only {ms(st[0][0] - t_stop):.0f} ms after SIGTSTP")
         paused = [ns for (ns, k, d) in r.events if k == "RunPaused"]; cont = [ns for (ns, k, d) in r.events if k == "RunContinued"]
-        if len(paused) != 1 or len(cont) != 1: V("pause-events", f"[{phase}] RunPaused x{len(paused)}, RunContinued x{len(cont)} for one stop/continue")
+        ncyc = len([1 for (_, s) in sent if s == signal.SIGTSTP])
+        if len(paused) != ncyc or len(cont) != ncyc: V("pause-events", f"[{phase}] RunPaused x{len(paused)}, RunContinued x{len(cont)} for {ncyc} stop/continue cycle(s)")
     stopped_ms = ms(t_cont - t_stop) if t_stop and t_cont else 0
+    if phase == "grace-twice":
+        tst = [ns for (ns, s) in sent if s == signal.SIGTSTP]; tct = [ns for (ns, s) in sent if s == signal.SIGCONT]
+        stopped_ms = sum(ms(c - a) for a, c in zip(tst, tct))
     for t in m["tests"]:
         key = key_of(t["bin"], t["pkg"], t["name"]); ps = tprocs(r, t["bin"], t["name"]); fin = finished(r, key); kind = t["kind"]
         if not ps or not fin: V("once", f"[{phase}] test {t['name']}: {len(ps)} processes, finished={fin}"); continue
@@ -414,7 +426,7 @@ def mon_stop(sc, r):
         alive_during_stop = t_stop is not None and p["start"] < t_stop and (not p.get("end") or p["end"][1] > t_stop)
         if alive_during_stop and kind not in ("delay", "second_shutdown"):
             gaps = [g for (_, g) in p.get("gaps", [])]
-            if not gaps or max(gaps) < stopped_ms - 250: V("test-not-stopped", f"[{phase}] test {t['name']} was not stopped while nextest was (gaps in its own clock: {gaps}, nextest stopped {stopped_ms:.0f} ms)")
+            if not gaps or (sum(gaps) if phase == "grace-twice" else max(gaps)) < stopped_ms - 250: V("test-not-stopped", f"[{phase}] test {t['name']} was not stopped while nextest was (gaps in its own clock: {gaps}, nextest stopped {stopped_ms:.0f} ms)")
             if 18 not in [s for (s, _) in sigs]: V("test-not-continued", f"[{phase}] test {t['name']} never received SIGCONT (signals {sigs})")
         if kind == "work":
             if res != "P": V("result", f"[{phase}] test {t['name']} needs {t['run_ms']} ms of running time (deadline {K * P} ms) but is reported {res}")
@@ -482,7 +494,7 @@ def mon_stop(sc, r):
             if i == 0 and not any(hx("work_0") in d and "Running" in d for d in rs): V("info-state", f"request 1 (300 ms in): work_0 is running but answered {rs}")
         if r.exit != 0: V("exit", f"information requests changed the outcome: exit {r.exit}")
     if phase in ("run", "delay") and r.exit != 0: V("exit", f"[{phase}] exit status {r.exit}, expected 0 (stop/continue must not change results)")
-    if phase in ("timeout", "grace") and r.exit != 100: V("exit", f"[{phase}] exit status {r.exit}, expected 100")
+    if phase in ("timeout", "grace", "grace-twice") and r.exit != 100: V("exit", f"[{phase}] exit status {r.exit}, expected 100")
     return out
 
 
@@ -591,12 +603,17 @@ def unit_events(sc, r, t, p):
     if fam == "stop":
         P, K, G = m["P"], m["K"], m["G"]; phase = m["phase"]
         ts = next((ns for (ns, s) in sent if s == signal.SIGTSTP), None); tc = next((ns for (ns, s) in sent if s == signal.SIGCONT), None)
-        if phase in ("run", "timeout", "grace") and ts and tc and kind != "fast":
-            a = rel(ts); st = int(round(ms(tc - ts)))
-            if kind == "work": rest = max(0, t["run_ms"] - a)
-            elif kind == "hang_exit": rest = max(0, t["deadline"] - a)
-            else: rest = max(0, t["deadline"] + G - a)
-            return ("spawn", P, K, G, [f"t{a}", "S", f"t{st}", "C", f"t{rest}", "X", "F"])
+        if phase in ("run", "timeout", "grace", "grace-twice") and ts and tc and kind != "fast":
+            tst = [ns for (ns, s) in sent if s == signal.SIGTSTP]; tct = [ns for (ns, s) in sent if s == signal.SIGCONT]
+            if len(tst) != len(tct): return None
+            ev = []; ran = 0; prev = p["start"]
+            for a_ns, c_ns in zip(tst, tct):
+                a = max(0, int(round(ms(a_ns - prev)))); st = int(round(ms(c_ns - a_ns)))
+                ev += [f"t{a}", "S", f"t{st}", "C"]; ran += a; prev = c_ns
+            if kind == "work": rest = max(0, t["run_ms"] - ran)
+            elif kind == "hang_exit": rest = max(0, t["deadline"] - ran)
+            else: rest = max(0, t["deadline"] + G - ran)
+            return ("spawn", P, K, G, ev + [f"t{rest}", "X", "F"])
         if phase == "delay" and ts and tc and kind == "delay":
             return None   # handled by delay_events
     if fam == "sig" and m["phase"] == "running" and kind in ("run_die", "run_ign", "run_late"):
